@@ -4,7 +4,7 @@
 (* FxLow plus the floating-point side; the elementary functions are added  *)
 (* by FxAlgoT).  Fid(e) compares the recorded result with the prediction.  *)
 (***************************************************************************)
-EXTENDS FxLow, FxAlgoT, FxContractF
+EXTENDS FxLow, FxAlgoTab, FxContractF
 
 PromF(tag, v) == IF tag = "fx" THEN v
                  ELSE IF IsFltTag(tag) THEN floating_point_to_fixed(FmtOf(tag), FDecode(FmtOf(tag), v))
@@ -30,6 +30,16 @@ LowZ(ab, e) ==
      [] e.op = "atan2" -> atan2_fn(e.a[1], e.a[2])
      [] e.op \in {"hypot", "hypot_sym"} -> hypot_fn(ab, e.a[1], e.a[2])
      [] e.op = "a2r" -> angle_to_radians(TypeOf(e.t[1]), e.a[1])
+     [] e.op = "sin_angle_aprox" -> sin_angle_aprox(e.a[1])
+     [] e.op = "cos_angle_aprox" -> cos_angle_aprox(e.a[1])
+     [] e.op = "tab_sin" -> ArrIdx(SinTab, ZToInt(e.a[1]))
+     [] e.op = "tab_cos" -> ArrIdx(CosTab, ZToInt(e.a[1]))
+     [] e.op = "tab_tan" -> ArrIdx(TanTab, ZToInt(e.a[1]))
+     [] e.op = "tab_sqrt" -> ArrIdx(SqrtTab, ZToInt(e.a[1]))
+     [] e.op = "sqrt_aprox" -> sqrt_aprox(e.a[1])
+     [] e.op = "hypot_aprox" -> hypot_aprox(e.a[1], e.a[2])
+     [] e.op = "atan_index_aprox" -> atan_index_aprox(e.a[1])
+     [] e.op = "atan_aprox" -> atan_aprox(e.a[1])
      [] e.op = "sin_angle" -> sin_(AngleRad(e.t[1], e.a[1]))
      [] e.op = "cos_angle" -> cos_(AngleRad(e.t[1], e.a[1]))
      [] e.op = "tan_angle" -> tan_fn(AngleRad(e.t[1], e.a[1]))
